@@ -29,6 +29,7 @@ func NewTomlDecoder() Decoder {
 }
 
 func (dec *tomlDecoder) Init(reader io.Reader) error {
+	dec.finished = false
 	dec.parser = toml.Parser{}
 	buf := new(bytes.Buffer)
 	_, err := buf.ReadFrom(reader)
